@@ -746,10 +746,10 @@ impl<'a> SchemaReader<'a> {
                 Ok(Shape::Variant(d as u32, fs))
             }
             RSchema::Enum { variants, discr_size, .. }
-                if variants.len() > 256 && *discr_size == 2 && self.patches.contains("enum_with_more_than_256_variants") =>
+                if variants.len() > 256 && (*discr_size == 2 || *discr_size == 4) && self.patches.contains("enum_with_more_than_256_variants") =>
             {
                 // true numbering: the wire discriminant is the variant index (the schema stores it in a u8)
-                let d = c.uint(2).map_err(eof)? as usize;
+                let d = c.uint(*discr_size as usize).map_err(eof)? as usize;
                 if d >= variants.len() {
                     return Err(format!("discriminant {} of {} variants", d, variants.len()));
                 }
@@ -960,6 +960,11 @@ pub fn frame_roots(u: &Universe, ty: &Ty, v: u32, s: &RSchema, out: &mut Vec<*co
             }
         }
         (Ty::Opt(a), RSchema::Option(i)) => frame_roots(u, a, v, i, out, depth + 1),
+        (Ty::Range(a), RSchema::Struct { fields, .. }) if fields.len() == 2 => {
+            for f in fields {
+                frame_roots(u, a, v, &f.value, out, depth + 1);
+            }
+        }
         (Ty::Tuple(ts), RSchema::Struct { fields, .. }) if ts.len() == fields.len() => {
             for (t, f) in ts.iter().zip(fields) {
                 frame_roots(u, t, v, &f.value, out, depth + 1);
